@@ -18,7 +18,7 @@ func init() {
 	fw.Register(&fw.Prop{
 		ID:    "C07",
 		Level: "exploration",
-		Rule: "sequential: all 65 536 fixed start values (first value, 8 steps, rollover count), 200 000-step walks over three wraps, random sequencers; concurrent " +
+		Rule: "sequential: all 65 536 fixed start values (first value, 8 steps, rollover count), 200 000-step walks over three wraps, random sequencers, walks starting (state hook) at 2^8 .. 2^64 completed rollovers, one walk of 2^32 + 2^18 values through the public API (thorough tier, and quick tier when the hooks are not compiled in); concurrent " +
 			"(race-instrumented build): many short histories (2-16 goroutines x 6-12 ops, start value placed so that the wrap falls inside the history, " +
 			"GOMAXPROCS varied, random Gosched at the client and at the in-method hook) checked with porcupine against a (last, rollovers) model, and long " +
 			"histories (>= 15 wraps) checked with an O(n log n) unique-value checker; the race detector watches all of it; non-trivial = a concurrent history " +
